@@ -11,11 +11,11 @@ import enginelib as E
 import vlib
 from props.C01 import err_code, last
 
-COQ_TARGETS = ["Model/Ops.vo", "Model/Observe.vo", "Proofs/EngineProofs.vo"]
-IMPORTS = "From VF Require Import GenNorm GenHedge GenTerm Core Engine Ops Observe."
+COQ_TARGETS = ["Model/Ops.vo", "Model/EngineF.vo", "Model/Observe.vo", "Proofs/EngineProofs.vo"]
+IMPORTS = "From VF Require Import GenNorm GenHedge GenTerm Core Engine EngineF Ops Observe."
 CASE_TYPE = "engine float * list (@op float) * list (store_obs + nat) * oracle"
 CHECKER = ("fun c => let '(e, ops, expected, tbl) := c in "
-           "steps_eqb (@run float (NumF true tbl) (fun _ _ _ _ => Err EInternal) ([e], 0%nat) ops) expected")
+           "steps_eqb (@run float (NumF true tbl) (@feval float (NumF true tbl) (fun _ _ _ => None)) ([e], 0%nat) ops) expected")
 ACTS = ("General", "General", "First", "Last", "Highest", "Lowest", "Proportional", "Threshold")
 
 
@@ -78,17 +78,18 @@ def run(ctx, build, verdict, ev):
     stats = {"sequences": 0, "steps": 0, "ops": {}, "history_free_checks": 0, "idempotence_checks": 0, "restart_checks": 0, "copy_graph_checks": 0, "isolation_checks": 0, "function_linear_engines": 0}
     distinct = set()
     for seq_no in range(ctx.n(400, 10000)):
-        desc = E.gen_engine(ctx.rng, profile=ctx.rng.choice(["algebraic", "algebraic", "mixed"]), activations=ACTS, weighted=True)
+        desc = E.gen_engine(ctx.rng, profile=ctx.rng.choice(["algebraic", "algebraic", "mixed"]), activations=ACTS, weighted=True, refs=True)
         if ctx.rng.random() < 0.5:
             for o in desc["outputs"]:
                 o["lock_previous"] = False
-        with_refs = ctx.rng.random() < 0.3  # terms that hold a reference to the engine (Linear / Function): implementation-side oracle only
+        with_refs = ctx.rng.random() < 0.15  # extra Function term reading other variables incl. outputs: implementation-side oracles only
         engine = E.build_engine(fl, desc)
         if with_refs:
-            stats["function_linear_engines"] += 1
             ov = engine.output_variables[0]
             ov.terms.append(fl.Linear("lin", [1.0] * len(engine.input_variables) + [0.5], engine))
             ov.terms.append(fl.Function.create("fun", " + ".join(iv.name for iv in engine.input_variables) + " + 1.0", engine))
+        if any(t["class"] in ("Linear", "Function") for o in desc["outputs"] for t in o["terms"]):
+            stats["function_linear_engines"] += 1
         e0_lit = E.lit_engine(fl, desc, engine)
         live = [engine]
         descs = [pycopy.deepcopy(desc)]
@@ -207,7 +208,7 @@ def run(ctx, build, verdict, ev):
     c["evaluations"] = stats["steps"]
     c["distinct_nontrivial"] = len(distinct)
     c["rule"] = ("operation sequences of length 3-12 over {set an input, process, restart, copy and switch to the copy, switch, edit a rule's enabled/weight, an output's enabled/default, a block's enabled} on generated engines "
-                 "(all activation methods, integral and weighted defuzzifiers; 30 % with Linear and Function terms referencing the engine - those are checked on the implementation only); after every step the observables of EVERY live engine "
+                 "(all activation methods, integral and weighted defuzzifiers, Linear and Function terms referencing the engine evaluated by the formula model; 15 % get extra reference terms appended after construction and are checked on the implementation only); after every step the observables of EVERY live engine "
                  "are compared with the model's store; non-trivial = distinct (sequence, position) of a process step in which a rule fired")
     c["distribution"] = stats
     c["correspondence_mismatches"] = len(mism)
